@@ -1,4 +1,5 @@
 import Chewing.Proofs.EditorFrame
+import Chewing.Model.Candidates
 /-!
 # C06 — Keys are passed through when nothing is being composed; key results are truthful
 
@@ -226,6 +227,90 @@ theorem ignore_persistent {e e' : Editor D L} {ev : KeyEvent}
   · rw [if_neg hdirty]
     exact ⟨hst, p1, p2, p3, p4, p5, p6, p9, Or.inl p7⟩
 
+/-! ### an ignored key and the open candidate list
+
+`ignore_frame` is about the WHOLE state value `e.state : St`: for an open list that is the page number, the action
+(insert / replace) and the selector itself (phrase range, direction, strategy and the copy of the buffer it works
+on; the symbol table's sub-menu; the symbol of a special-symbol list), and about the whole shared state apart from
+the documented volatile fields (`last` = the answer, the per-key outputs `commitBuf` / `noticeBuf` reset to empty,
+the clock `time`, and `dict` / `dirty` when a pending flush is carried out).  The corollaries below spell this out
+for the open list and for what the candidate getters (`Model/Candidates.lean`) answer. -/
+
+/-- an ignored key leaves an open list exactly as it was: same page, same action, same selector -/
+theorem ignore_keeps_open_list {e e' : Editor D L} {ev : KeyEvent}
+    (h : e.processKey env ev = .ok (e', .ignore)) (s : Selecting) (hs : e.state = .selecting s) :
+    e'.state = .selecting s ∧
+    (∀ s', e'.state = .selecting s' → s'.pageNo = s.pageNo ∧ s'.action = s.action ∧ s'.sel = s.sel) := by
+  have h1 := (ignore_frame env h).1
+  rw [hs] at h1
+  refine ⟨h1, fun s' hs' => ?_⟩
+  rw [h1] at hs'; injection hs' with hs'; subst hs'; exact ⟨rfl, rfl, rfl⟩
+
+/-- … and never opens or closes one -/
+theorem ignore_keeps_list_closed {e e' : Editor D L} {ev : KeyEvent}
+    (h : e.processKey env ev = .ok (e', .ignore)) (hs : ∀ s, e.state ≠ .selecting s) :
+    ∀ s, e'.state ≠ .selecting s := by
+  intro s; rw [(ignore_frame env h).1]; exact hs s
+
+/-- reopening + flushing the dictionary `d` does not change what lookups answer (C09 / C10 prove this of the
+    real dictionaries; here it is a premise, needed only when a flush is pending) -/
+def FlushNeutralAt (d : D) : Prop :=
+  ∀ k st, env.lookupAll (env.reopenFlush d) k st = env.lookupAll d k st
+
+/-- the candidates of a list depend on the dictionary only through its lookup answers -/
+theorem candidates_dict_congr (s : Selecting) {sh sh' : Shared D L} (hsyl : sh'.syl = sh.syl)
+    (hd : ∀ k st, env.lookupAll sh'.dict k st = env.lookupAll sh.dict k st) :
+    Selecting.candidates env s sh' = Selecting.candidates env s sh := by
+  unfold Selecting.candidates
+  cases s.sel with
+  | phrase p => simp only [PhraseSel.candidates, hd, hsyl]
+  | symbol y => rfl
+  | special sym => rfl
+
+/-- the shared state after an ignored key, as far as the candidate getters read it -/
+theorem ignore_getter_inputs {e e' : Editor D L} {ev : KeyEvent}
+    (h : e.processKey env ev = .ok (e', .ignore))
+    (hfl : 0 < e.shared.dirty → FlushNeutralAt env e.shared.dict) :
+    e'.shared.syl = e.shared.syl ∧ e'.shared.options = e.shared.options ∧
+    (∀ k st, env.lookupAll e'.shared.dict k st = env.lookupAll e.shared.dict k st) := by
+  obtain ⟨_, _, hsyl, hopt, _, _, _, _, hdict⟩ := ignore_persistent env h
+  refine ⟨hsyl, hopt, fun k st => ?_⟩
+  rcases hdict with hd | ⟨hpos, hd⟩
+  · rw [hd]
+  · rw [hd]; exact hfl hpos k st
+
+/-- **C06, ignore, as the getters see it.**  After an ignored key `current_page_no`, `all_candidates`,
+    `paginated_candidates` and `total_page` (hence `chewing_cand_CurrentPage / TotalChoice / TotalPage /
+    ChoicePerPage / Enumerate`) answer exactly what they answered before — for every environment; if a dictionary
+    flush is pending (`dirty > 0`, which no key leaves behind) the flush must not change lookup answers. -/
+theorem ignore_keeps_candidates {e e' : Editor D L} {ev : KeyEvent}
+    (h : e.processKey env ev = .ok (e', .ignore))
+    (hfl : 0 < e.shared.dirty → FlushNeutralAt env e.shared.dict) :
+    e'.currentPageNo = e.currentPageNo ∧
+    e'.allCandidates env = e.allCandidates env ∧
+    e'.paginatedCandidates env = e.paginatedCandidates env ∧
+    e'.totalPage env = e.totalPage env ∧
+    CApi.currentPage e' = CApi.currentPage e ∧ CApi.choicePerPage e' = CApi.choicePerPage e ∧
+    CApi.totalChoice env e' = CApi.totalChoice env e ∧ CApi.totalPage env e' = CApi.totalPage env e ∧
+    CApi.enumerate env e' = CApi.enumerate env e := by
+  have hst := (ignore_frame env h).1
+  obtain ⟨hsyl, hopt, hd⟩ := ignore_getter_inputs env h hfl
+  have hc : ∀ s, Selecting.candidates env s e'.shared = Selecting.candidates env s e.shared :=
+    fun s => candidates_dict_congr env s hsyl hd
+  have h1 : e'.currentPageNo = e.currentPageNo := by unfold Editor.currentPageNo; rw [hst]
+  have h2 : e'.allCandidates env = e.allCandidates env := by
+    unfold Editor.allCandidates; rw [hst]; cases e.state <;> simp only [hc]
+  have h3 : e'.paginatedCandidates env = e.paginatedCandidates env := by
+    unfold Editor.paginatedCandidates; rw [hst]; cases e.state <;> simp only [hc, hopt]
+  have h4 : e'.totalPage env = e.totalPage env := by
+    unfold Editor.totalPage Selecting.totalPage; rw [hst]; cases e.state <;> simp only [hc, hopt]
+  refine ⟨h1, h2, h3, h4, ?_, ?_, ?_, ?_, ?_⟩
+  · unfold CApi.currentPage; rw [h1]
+  · unfold CApi.choicePerPage; rw [hopt]
+  · unfold CApi.totalChoice; rw [h2]
+  · unfold CApi.totalPage; rw [h4]
+  · unfold CApi.enumerate; rw [h3]
+
 /-- **C06, bell.**  A key answered with *bell* leaves pre-edit symbols, gaps, selections, cursor and
     saved cursors unchanged. -/
 theorem bell_frame {e e' : Editor D L} {ev : KeyEvent}
@@ -316,5 +401,37 @@ theorem f37_history_now_ignored :
 
 example : ∃ e', toyEditor.processKey toyEnv { index := 50, code := KC.enter, unicode := 65533 } = .ok (e', .ignore) :=
   idle_passthrough toyEnv rfl (by decide) (by decide) (Or.inl rfl)
+
+/-- an editor whose symbol table has three entries, shown one per page -/
+def pagedEditor : Editor Unit Nat :=
+  { shared := { syl := 0, dict := (), options := { candidatesPerPage := 1 },
+                symSel := { category := [([8230], none), ([8251], none), ([65292], none)] } } }
+
+def keyGrave : KeyEvent := { index := 14, code := KC.grave, unicode := 96 }
+def keyRight : KeyEvent := { index := 55, code := KC.right, unicode := 65533 }
+def keyJ : KeyEvent := { index := 33, code := KC.j, unicode := 106 }
+def keyK : KeyEvent := { index := 34, code := KC.k, unicode := 107 }
+
+/-- the history behind the seeded change "ignored j / k resets the page": the symbol table opened on an EMPTY
+    buffer, paged forward once; `j` (and `k`) is ignored there and the list is still on page 1 of 3 -/
+theorem ignored_j_on_second_page :
+    ∃ (e e' : Editor Unit Nat),
+      pagedEditor.run toyEnv [.key keyGrave, .key keyRight] = .ok e ∧
+      e.shared.com.isEmpty = true ∧ e.currentPageNo = some 1 ∧ e.totalPage toyEnv = .ok (some 3) ∧
+      e.processKey toyEnv keyJ = .ok (e', .ignore) ∧
+      e'.currentPageNo = some 1 ∧ e'.totalPage toyEnv = .ok (some 3) ∧
+      e'.paginatedCandidates toyEnv = .ok (some [[8251], [65292]]) := by
+  refine ⟨_, _, rfl, ?_, ?_, ?_, rfl, ?_, ?_, ?_⟩ <;> decide
+
+example : ∃ e e', pagedEditor.run toyEnv [.key keyGrave, .key keyRight] = .ok e ∧
+    e.processKey toyEnv keyK = .ok (e', .ignore) ∧ e'.currentPageNo = some 1 := by
+  refine ⟨_, _, rfl, rfl, ?_⟩; decide
+
+/-- `ignore_keeps_candidates` applies to it (its premises hold: the key is ignored, no flush is pending) -/
+example (e e' : Editor Unit Nat) (_ : pagedEditor.run toyEnv [.key keyGrave, .key keyRight] = .ok e)
+    (h : e.processKey toyEnv keyJ = .ok (e', .ignore)) :
+    e'.currentPageNo = e.currentPageNo ∧ e'.paginatedCandidates toyEnv = e.paginatedCandidates toyEnv :=
+  have hk := ignore_keeps_candidates toyEnv h (fun _ _ _ => rfl)
+  ⟨hk.1, hk.2.2.1⟩
 
 end Chewing.C06
